@@ -846,7 +846,8 @@ fn run_ring<R: Scal>(s: &mut Sink, r: &mut Rng, plan: &Plan, corpus: &[&str]) wh
     }
 }
 
-/// hand-written near-limit pairs (results representable, no intermediate overflow: must all succeed)
+/// hand-written near-limit pairs with representable results (the Ratio<i64> additions that hit an intermediate overflow are
+/// the deterministic `KNOWN? Q64` witnesses; everything else must succeed)
 fn nl_corpus(tag: &str) -> Vec<(&'static str, &'static str)> {
     match tag {
         "Z64" => vec![("9223372036854775807", "0"), ("9223372036854775806", "1"), ("-9223372036854775807", "-1"), ("4611686018427387904", "4611686018427387903"),
